@@ -200,7 +200,7 @@ func c07tcp(c *runner.Ctx, i int) {
 	}
 	writers := []int{2, 8, 32}[r.Intn(3)]
 	per := 240 / writers
-	maxPad := []int{0, 200, 20000, 60000}[r.Intn(4)]
+	maxPad := []int{0, 200, 20000, 60000, 250000}[r.Intn(5)]
 	var mu sync.Mutex
 	var wg sync.WaitGroup
 	for w := 0; w < writers; w++ {
